@@ -417,8 +417,11 @@ def correspond(ctx, drv, case, obs, net, opt_out):
     if opt_out is not None:
         r = drv.call("c18.proc", net=case["net"], path=opt_out["best_ssa_path"], batch=True, single=False)
         ctx.traces += 1
+        # since /repo 70e039c the reported flops put back the dimensions of the indices that
+        # simplify_batch dropped (the model's processor tracks the reduced network)
+        bfac = prod(net.sizes[ix] for ix in batch_ixs(net))
         if "error" in r or not r["ok"] or r["flops"] < 1 or \
-                abs(math.log10(r["flops"]) - opt_out["best_flops"]) > 1e-9:
+                abs(math.log10(r["flops"] * bfac) - opt_out["best_flops"]) > 1e-9:
             ctx.corr_broken("random-greedy best_flops differs from the model's replay of best_ssa_path",
                             {"case": case})
             ok = False
